@@ -918,16 +918,29 @@ func (graph *Graph) stabilizeEndHandleSetDuringStabilization(ctx context.Context
 		})
 		for _, nodeID := range keys {
 			n := graph.setDuringStabilization[nodeID]
-			_ = n.Node().maybeStabilize(ctx)
+			applyDeferredSet(ctx, n)
 			graph.SetStale(n)
 		}
 	} else {
 		for _, n := range graph.setDuringStabilization {
-			_ = n.Node().maybeStabilize(ctx)
+			applyDeferredSet(ctx, n)
 			graph.SetStale(n)
 		}
 	}
 	clear(graph.setDuringStabilization)
+}
+
+// applyDeferredSet makes a value set during stabilization the node's value.
+//
+// The node's own Stabilize is asserted here rather than reached through the delegate
+// cached on the node metadata: that cache is only filled in when a node is first
+// registered with the graph, so for a var that has never been observed it is nil, the
+// deferred value was silently not applied, and it stayed pending to overwrite a later
+// Set whenever the var was eventually recomputed.
+func applyDeferredSet(ctx context.Context, n INode) {
+	if typed, ok := n.(IStabilize); ok {
+		_ = typed.Stabilize(ctx)
+	}
 }
 
 func (graph *Graph) stabilizeEndRunUpdateHandlers(ctx context.Context) {
